@@ -207,6 +207,8 @@ fn bytes_strategy(m: &vcore::fmodel::FormatModel, ty: Ty, o: &OptModel) -> Boxed
                 3 => gen::grammar_text(rx, pt, ec).prop_map(|(t, _)| t),
                 2 => gen::fastpath_text(k, rx, pt, ec).prop_map(|(t, _)| t),
                 1 => gen::range_edge_text(k, rx, pt, ec).prop_map(|(t, _)| t),
+                1 => gen::beyond_range_text(k, rx, pt, ec).prop_map(|(t, _)| t),
+                1 => gen::limb_aligned_text(k, rx, pt, ec).prop_map(|(t, _)| t),
             ]
             .boxed()
         },
